@@ -1870,6 +1870,7 @@ func extractLocksets(repo, out string) error {
 	}
 	tbl := &LsTable{}
 	pkg.analyzeStructs(kernel, tbl)
+	etbl := &ELTable{}
 	for _, rel := range ops {
 		for _, d := range pkg.files[rel].Decls {
 			fd, ok := d.(*ast.FuncDecl)
@@ -1878,6 +1879,17 @@ func extractLocksets(repo, out string) error {
 			}
 			a := &lsAn{pkg: pkg}
 			a.analyzeFunc(fd, rel, tbl)
+		}
+	}
+	// emitlock.go: after the Locksets pass, so that the lock identifiers of Locksets.lean do not move
+	for _, rel := range ops {
+		for _, d := range pkg.files[rel].Decls {
+			fd, ok := d.(*ast.FuncDecl)
+			if !ok || fd.Body == nil || fd.Recv != nil {
+				continue
+			}
+			a := &lsAn{pkg: pkg}
+			a.emitLocks(fd, rel, etbl)
 		}
 	}
 	for i := range tbl.Locs {
@@ -1901,6 +1913,7 @@ func extractLocksets(repo, out string) error {
 		tbl.Locs[i].Rows = ded
 	}
 	tbl.LockNames = pkg.lockIDs
+	writeEmitLocks(out, etbl, pkg.lockIDs)
 
 	var sb strings.Builder
 	sb.WriteString("-- GENERATED by go/extract (locksets.go) from the repository under check. Do not edit.\nimport RoModel.LockFacts\nnamespace RoGen.Locksets\nopen Ro.LockFacts\n\n")
